@@ -464,7 +464,7 @@ def make_machine(ctx):
             self.pool.new(kind, text, info)
 
         @precondition(lambda self: self.pool.items)
-        @rule(op=st.sampled_from(OPS), i=st.integers(0, 30), k=st.integers(0, 60), x=st.integers(0, 30))
+        @rule(op=st.sampled_from(OPS + ('but_condition', 'but_condition', 'but_changed', 'but_changed', 'but_domain', 'cast', 'replace_var_lit', 'type_check')), i=st.integers(0, 30), k=st.integers(0, 60), x=st.integers(0, 30))
         def apply(self, op, i, k, x):
             self.pool.op(op, i, k, x)
 
